@@ -265,5 +265,11 @@ if _os.path.isdir(_SEEDED):
     for _sid in sorted(_os.listdir(_SEEDED)):
         _m = _re.search(r"C\d\d", _sid)
         if _m and _os.path.exists(_os.path.join(_SEEDED, _sid, "patch.diff")):
+            _base = None
+            try:
+                import json as _json
+                _base = _json.load(open(_os.path.join(_SEEDED, _sid, "meta.json"))).get("base")
+            except Exception:
+                pass
             CORPUS.append({"name": f"seeded-{_sid}", "props": [_m.group(0)], "kind": "break", "edits": [],
-                           "diff": f"seeded/{_sid}/patch.diff"})
+                           "diff": f"seeded/{_sid}/patch.diff", "base": _base})
